@@ -1078,6 +1078,22 @@ def group_nearby_members(
     return out
 
 
+def _check_row_aligned_inputs(group_key, values, mask):
+    """
+    The row-aligned kernels index values and mask with the row number of group_key
+    without bounds checks, so unequal lengths must be rejected up front.
+    """
+    n_values = sum(len(chunk) for chunk in values)
+    if n_values != len(group_key):
+        raise ValueError(
+            f"Length of values ({n_values}) does not match length of group_key ({len(group_key)})"
+        )
+    if mask is not None and len(mask) != len(group_key):
+        raise ValueError(
+            f"Length of mask ({len(mask)}) does not match length of group_key ({len(group_key)})"
+        )
+
+
 # ===== Rolling Aggregation Methods =====
 
 
@@ -1149,6 +1165,7 @@ def _apply_rolling(
 
     rolling_1d_func = rolling_1d_funcs[operation]
     values = _val_to_numpy(values, as_list=True)
+    _check_row_aligned_inputs(group_key, values, mask)
     values, orig_dtypes = zip(*list(map(_cast_timestamps_to_ints, values)))
     orig_dtype = orig_dtypes[0]
     values_are_times = orig_dtype.kind in "mM"
@@ -1754,6 +1771,7 @@ def _apply_cumulative(
     counting = "count" in operation
 
     values = _val_to_numpy(values, as_list=True)
+    _check_row_aligned_inputs(group_key, values, mask)
     values, orig_dtypes = zip(*list(map(_cast_timestamps_to_ints, values)))
     orig_dtype = orig_dtypes[0]
 
